@@ -84,6 +84,23 @@ theorem C06_weakness_union (base : List (Nat × Bool)) (l : List (Inst Rat)) (t 
     · exact Or.inl h
     · exact Or.inr (Or.inl h)
 
+/-- **Status counts and behaviour flags are read off the attached list**: the count of a status type
+is the number of attached instances whose shape has it, a flag is present exactly when some attached
+instance's shape carries it; neither depends on attachment order, and an empty list has none. -/
+theorem C06_counts_flags (cat : Catalog Rat) (l l₂ : List (Inst Rat)) (h : l.Perm l₂) (k f : Nat) :
+    statusCount cat l k = statusCount cat l₂ k ∧ hasFlag cat l f = hasFlag cat l₂ f ∧
+    statusCount cat ([] : List (Inst Rat)) k = 0 ∧ hasFlag cat ([] : List (Inst Rat)) f = false ∧
+    (∀ i : Inst Rat, statusCount cat (i :: l) k = statusCount cat l k + (if (cfgOf cat i.name).status == k then 1 else 0)) := by
+  refine ⟨?_, ?_, rfl, rfl, ?_⟩
+  · unfold statusCount; exact (h.filter _).length_eq
+  · unfold hasFlag
+    rw [Bool.eq_iff_iff]
+    simp only [List.any_eq_true]
+    exact ⟨fun ⟨x, hx, h'⟩ => ⟨x, h.mem_iff.1 hx, h'⟩, fun ⟨x, hx, h'⟩ => ⟨x, h.mem_iff.2 hx, h'⟩⟩
+  · intro i
+    unfold statusCount
+    by_cases hi : (cfgOf cat i.name).status == k <;> simp [List.filter_cons, hi]
+
 end Modifier
 
 namespace Heap
